@@ -326,7 +326,8 @@ def repo_env(extra: dict | None = None) -> dict:
     env = dict(os.environ)
     env[GUARD] = "1"
     env.setdefault("PYTHONHASHSEED", "0")
-    env["PYTHONPATH"] = REPO + (os.pathsep + env["PYTHONPATH"] if env.get("PYTHONPATH") else "")
+    pp = [p for p in env.get("PYTHONPATH", "").split(os.pathsep) if p and p != REPO]
+    env["PYTHONPATH"] = os.pathsep.join([REPO] + pp)
     if extra:
         env.update(extra)
     return env
